@@ -95,7 +95,7 @@ TraceNext ==
        \/ /\ e.ev = "BuildStart"        \* the model has been declared; main() is about to run
           /\ bp' = LookupBp(e.name)
           /\ decl' = e.decl
-          /\ st' = DeclareAll(InitialSt(bp'), bp', decl')
+          /\ st' = LateMarkets(DeclareAll(InitialSt(bp'), bp', decl'), bp', NSec(bp'))
           /\ phase' = "gen" /\ gi' = 1
           /\ fails' = fails
        \/ /\ e.ev = "Phase" /\ e.kind = "Generate"     \* one sector's _GenerateEquations returned
